@@ -8,7 +8,8 @@ lossless compaction (msgappv2) and a self-contained framing (message).
     MC_ZCodec_walk is dumped as a labelled state graph.
 (B) harness `codecsim` executes every edge of that graph, seeded random msgappv2 sequences
     (interleaved groups, near-continuations, sizes around the buffers) and random sequences
-    of all message types through the generic codec on the REAL encoders/decoders, then
+    of all message types through the generic codec on the REAL encoders/decoders, drives a
+    REAL streamWriter over re-attached connections (one segment per connection), then
     explores the recorded byte streams: every truncation point, single-byte corruptions of
     header bytes.  It records; spec/ZCodecTrace.tla (TLC) decides every line.
 """
@@ -22,6 +23,8 @@ import vcheck as V
 MUTANTS = ["nogroup", "nologterm", "noencterm", "noindex", "nodecadv"]
 PROP_INVS = "Lossless StepFaithful InSync CtxAgree ErrorAfterDamage"
 
+STREAM_KEYS = ["stream_connections", "stream_reconnects", "stream_messages", "stream_heartbeats", "stream_not_written",
+               "stream_connections_not_logged"]
 ACTIONS = ["Encode", "EncodeFull", "EncodeHB", "Decode", "DoTruncate", "DoCorrupt"]
 _re_cov = re.compile(r"^<(\w+) line \d+, col \d+ to line \d+, col \d+ of module \w+>: \d+:(\d+)", re.M)
 _re_str = re.compile(r'"([^"]*)"')
@@ -48,7 +51,7 @@ def model_runs(ctx, gdot):
     """(A): exhaustive runs of the design.  Returns (walk result, list of summaries, mutants refuted)."""
     # the walk instance is on the critical path (its graph feeds the driver): more workers
     jobs = [("walk", "MC_ZCodec_walk.cfg", 6, ["-dump", "dot,actionlabels", gdot]),
-            ("proof", "MC_ZCodec.cfg", 3, None)]
+            ("proof", "MC_ZCodec_quick.cfg" if ctx.quick() else "MC_ZCodec.cfg", 3, None)]
     if not ctx.quick():
         # deep: pipe depth 2; hist: no VIEW, bounded histories (cross-check of the VIEW), run
         # with -coverage so that no property-relevant action is vacuous
@@ -148,13 +151,15 @@ def run(ctx):
                 ("random-b", ["-random", "60", "-len", "30", "-big", "0.2", "-seed", str(seed * 10 + 2)]),
                 ("msg", ["-msg", "50", "-len", "20", "-seed", str(seed * 10 + 3)]),
                 ("explore-a", ["-explore", "9", "-seed", str(seed * 10 + 4)]),
-                ("explore-b", ["-explore", "9", "-seed", str(seed * 10 + 5)])]
+                ("explore-b", ["-explore", "9", "-seed", str(seed * 10 + 5)]),
+                ("stream", ["-stream", "60", "-seed", str(seed * 10 + 6)])]
         walk_args = ["-dot", gdot, "-limit", "18000", "-seed", str(seed)]
     else:
         plan = [("random-%d" % i, ["-random", "250", "-len", "40", "-big", "0.12", "-seed", str(seed * 100 + i)]) for i in range(4)]
         plan += [("msg-%d" % i, ["-msg", "200", "-len", "25", "-seed", str(seed * 100 + 10 + i)]) for i in range(2)]
         plan += [("explore-%d" % i, ["-explore", "24", "-seed", str(seed * 100 + 20 + i)]) for i in range(4)]
         plan += [("explore-full-%d" % i, ["-explore", "8", "-full", "-payload", "-seed", str(seed * 100 + 30 + i)]) for i in range(2)]
+        plan += [("stream-%d" % i, ["-stream", "300", "-seed", str(seed * 100 + 40 + i)]) for i in range(2)]
         walk_args = ["-dot", gdot, "-seed", str(seed)]
 
     from concurrent.futures import ThreadPoolExecutor
@@ -209,6 +214,7 @@ def run(ctx):
     stats = dict(events=0, segments=0, enc=0, dec=0, late=0, trunc=0, corrupt=0, mismatches=0, runs=[],
                  frames={}, mismatch_classes={}, graph_edges=0, graph_edges_replayed=0, walk_steps=0)
     samples, cases, nontrivial = [], set(), set()
+    stream_stats = {}
     good_for_selftest = None
     for fu in futs:
         name, f, summ, val, args = fu.result()
@@ -249,6 +255,8 @@ def run(ctx):
                 c = (segkey, "c", e["pos"], e["new"])
                 cases.add(c)
                 nontrivial.add(c)
+        for k in STREAM_KEYS:
+            stream_stats[k] = stream_stats.get(k, 0) + summ.get(k, 0)
         if summ.get("mode") == "graph":
             stats["graph_edges"] = summ["edges"]
             stats["graph_edges_replayed"] = summ["edges_covered"]
@@ -310,6 +318,13 @@ def run(ctx):
                  "new byte) and non-trivial when the cut lies strictly inside the stream or a byte was changed; "
                  "TLC (ZCodecTrace OnTrunc/OnCorrupt) evaluates each: exactly the whole frames before the "
                  "damage, then an error"),
+        stream_stage=dict(stream_stats,
+                          rule="a real streamWriter (startStreamWriter) gets outgoing connections attached while it "
+                               "replicates (msgappv2 in continuation mode; generic stream likewise); every connection "
+                               "is one trace segment: the frames written to it, then what a fresh real decoder reads "
+                               "from its bytes - ZCodecTrace starts every segment with a fresh context, so a "
+                               "connection must begin with a full frame and read back what was written; the "
+                               "writer's own link heartbeats are logged as frames"),
         driver_runs=stats["runs"],
         self_test=stats.get("self_test", "thorough tier only"),
         rule="every edge of TLC's state graph of MC_ZCodec_walk (all appends over 3 group pairs x terms x log "
